@@ -40,6 +40,10 @@ def _logix(prop, level, qn, tn, directed=False, budget=(180, 1800), extra_rule="
     parts.append(("logix", "gen", qn, tn))
     return {"level": level, "parts": parts, "budget_s": {"quick": budget[0], "thorough": budget[1]},
             "rule": LOGIX_RULE + extra_rule, "real": LOGIX_REAL, "stub": LOGIX_STUB,
+            "want_probes": ["frag_read_ge3", "frag_write_ge3", "multi_service_ge2_packets", "symbol_list_partial",
+                            "symbol_list_ge3_pages", "template_fragment_partial", "template_cut_inside_member_record",
+                            "first_chunk_lt4", "send_partial", "standard_fo_fallback_taken", "micro800_open",
+                            "sequence_wrap_inside_call", "status6_on_fragmented_read", "read_fragment_empty"],
             "assumptions": ["benign nondeterminism only (no transport faults): the quantifier of this property has no faults",
                             "reference controller follows 1756-PM020 / CIP Vol 1; strict rules named in DESIGN 3.4"] + list(assumptions)}
 
@@ -52,7 +56,7 @@ PLANS.update({
                   extra_rule="; directed set: every tag size in [cs-64, cs+64] and around 2cs (3cs thorough) x name length x "
                              "read/write x alone/next to a small tag for cs in {500, 4000}"),
     "C05": _logix("C05", "exploration", 3000, 80000),
-    "C09": _logix("C09", "exploration", 5000, 150000),
+    "C09": _logix("C09", "exploration", 5000, 150000, directed=True),
     "C11": _logix("C11", "exploration", 4000, 100000),
     "C17": _logix("C17", "exploration", 3000, 80000, directed=True),
 })
@@ -95,6 +99,11 @@ PLANS["C16"] = {"level": "exploration", "parts": [("generic", "gen", 10000, 4000
                                 "widths, order and formatting are the reference's",
                                 "for-all-values is seeded sampling with boundary bias, not enumeration"]}
 PLANS["C09"]["parts"].append(("generic", "gen", 5000, 150000))
+PLANS["C09"]["parts"].append(("generic", "directed", None, None))
+PLANS["C09"]["rule"] += ("; directed value sweeps through generic messages against a wildcard object: every class/instance/attribute "
+                         "value around the 8/16/32-bit format boundaries, every 97th (quick) or every (thorough) instance id "
+                         "0..0x10100, every 251st/7th class and attribute id; and element indices around 255/256/65535/65536 of a "
+                         "70000-element array")
 PLANS["C09"]["parts"].append(("lifecycle", "gen", 3000, 80000))
 PLANS["C11"]["parts"].append(("generic", "gen", 4000, 100000))
 PLANS["C11"]["parts"].append(("lifecycle", "gen", 6000, 150000))
